@@ -122,11 +122,13 @@ char *vm_string_from_char(int64_t code) {
 /* ── Character classification ────────────────────────────────────── */
 
 int64_t vm_is_digit(int64_t c) { return (c >= '0' && c <= '9') ? 1 : 0; }
-int64_t vm_is_alpha(int64_t c) { return isalpha((int)c) ? 1 : 0; }
-int64_t vm_is_alnum(int64_t c) { return isalnum((int)c) ? 1 : 0; }
-int64_t vm_is_space(int64_t c) { return isspace((int)c) ? 1 : 0; }
-int64_t vm_is_upper(int64_t c) { return isupper((int)c) ? 1 : 0; }
-int64_t vm_is_lower(int64_t c) { return islower((int)c) ? 1 : 0; }
+/* ASCII ranges on the full int64 (as in the C backend): <ctype.h> on a truncated int
+ * is undefined outside unsigned char/EOF (is_alpha(2147483647) crashed) and answers for c mod 2^32 */
+int64_t vm_is_upper(int64_t c) { return (c >= 'A' && c <= 'Z') ? 1 : 0; }
+int64_t vm_is_lower(int64_t c) { return (c >= 'a' && c <= 'z') ? 1 : 0; }
+int64_t vm_is_alpha(int64_t c) { return (vm_is_upper(c) || vm_is_lower(c)) ? 1 : 0; }
+int64_t vm_is_alnum(int64_t c) { return (vm_is_alpha(c) || (c >= '0' && c <= '9')) ? 1 : 0; }
+int64_t vm_is_space(int64_t c) { return (c == ' ' || (c >= '\t' && c <= '\r')) ? 1 : 0; }
 int64_t vm_is_whitespace(int64_t c) {
     return (c == ' ' || c == '\t' || c == '\n' || c == '\r') ? 1 : 0;
 }
